@@ -22,7 +22,8 @@ Norm(cfg, i) == [raises |-> "no", wild |-> FALSE, doc |-> i.doc,
 \* this class".  known_findings.txt lists the open ones; Enabled is that list.
 Devs == {"numpydoc_no_types_unparsable",   \* wild : numpydoc with emit_types=False and a return entry: the return section has no type line; the parser raises / returns garbage
          "gn_return_only_mangled",         \* wild (return entry): Google/NumPy docstring with a return but no parameters: the return type is mis-sliced
-         "code_default_unparsable",        \* wild : a code-quoted default carried in the prose is not recovered (raises ValueError or is split)
+         "code_default_type_dropped",      \* exact: an entry whose default is a code-quoted expression loses its WRITTEN type unless that type has brackets
+                                           \*        (the parser distrusts a type next to an expression; before the repair the default itself was lost: wild)
          "str_default_with_dot_truncated", \* wild : a string default containing a full stop is cut at it ("~/data/x.txt" -> "~/data/x", ".txt" lands in the description)
          "none_default_as_str",            \* exact: a None default comes back as the string '(None)'
          "empty_str_default_lost",         \* exact: an empty-string default is dropped and 'Defaults to' stays in the description
@@ -34,6 +35,8 @@ ParsedDefault(cfg, p) == cfg.edd /\ p.def \notin {"absent", "str_empty"}
 ZeroOf(t) == CASE t = "int" -> "int_zero" [] t = "float" -> "zero_float" [] t = "str" -> "str_empty"
                [] t = "bool" -> "bool_F" [] OTHER -> "None"
 
+Bracketed(t) == t \in {"List_str", "Union_int_str", "Lit", "Lit2", "LitP"} \/ IsOpt(t)
+CodeDrops(en, cfg, p) == "code_default_type_dropped" \in en /\ cfg.edd /\ p.def = "code" /\ Written(cfg, p) /\ ~Bracketed(p.typ)
 \* `after` = some earlier parameter carries a parsed default (Google/NumPy then force a default on every later entry)
 AsBuiltPk(en, cfg, p, after) ==
   LET e0 == NormP(cfg, p)
@@ -41,13 +44,17 @@ AsBuiltPk(en, cfg, p, after) ==
             THEN [e0 EXCEPT !.def = "str_paren_None", !.typs = IF Written(cfg, p) THEN {p.typ} ELSE {"str"}]
             ELSE e0
       e2 == IF "empty_str_default_lost" \in en /\ cfg.edd /\ p.def = "str_empty"
-            THEN [e1 EXCEPT !.def = IF after /\ cfg.style \in {"google", "numpydoc"} THEN ZeroOf(p.typ) ELSE "absent",
+            THEN [e1 EXCEPT !.def = IF after /\ cfg.style \in {"google", "numpydoc"}
+                                    THEN (IF Written(cfg, p) THEN ZeroOf(p.typ) ELSE "None")     \* the zero of the type the parser can see
+                                    ELSE "absent",
                             !.doc = "residue"]
             ELSE e1
-  IN e2
+      e3 == IF CodeDrops(en, cfg, p) THEN [e2 EXCEPT !.typs = {"absent"}] ELSE e2
+  IN e3
 AsBuiltP(en, cfg, p) == AsBuiltPk(en, cfg, p, FALSE)
 FiredP(en, cfg, p) == {d \in en : \/ (d = "none_default_as_str" /\ cfg.edd /\ p.def = "None")
-                                   \/ (d = "empty_str_default_lost" /\ cfg.edd /\ p.def = "str_empty")}
+                                   \/ (d = "empty_str_default_lost" /\ cfg.edd /\ p.def = "str_empty")
+                                   \/ (d = "code_default_type_dropped" /\ CodeDrops(en, cfg, p))}
 
 AsBuilt(en, cfg, i) ==
   LET ents == {i.params[k] : k \in 1..Len(i.params)} \cup (IF i.ret = NoRet THEN {} ELSE {i.ret})
@@ -55,7 +62,7 @@ AsBuilt(en, cfg, i) ==
       \* RETURN entry: without its type line the section is read as two parameters called "Returns" and "-------")
       wildNp == "numpydoc_no_types_unparsable" \in en /\ cfg.style = "numpydoc" /\ ~cfg.et /\ i.ret # NoRet
       retOnly == "gn_return_only_mangled" \in en /\ cfg.style \in {"google", "numpydoc"} /\ i.ret # NoRet /\ i.params = <<>>
-      wildCode == "code_default_unparsable" \in en /\ cfg.edd /\ \E p \in ents : p.def = "code"
+      wildCode == FALSE
       \* (a QUOTED default -- any typed string -- is read to its closing quote since the repair; an untyped entry's default is written
       \* bare, where a full stop cannot be told from the end of the sentence)
       wildDot == "str_default_with_dot_truncated" \in en /\ cfg.edd /\ \E p \in ents : p.def = "str_dot" /\ p.typ = "absent"
@@ -66,7 +73,6 @@ AsBuilt(en, cfg, i) ==
               ELSE IF retOnly THEN [ret0 EXCEPT !.wild = TRUE] ELSE ret0
       fired == UNION {FiredP(en, cfg, p) : p \in ents}
                \cup (IF wildNp THEN {"numpydoc_no_types_unparsable"} ELSE {})
-               \cup (IF wildCode THEN {"code_default_unparsable"} ELSE {})
                \cup (IF wildDot THEN {"str_default_with_dot_truncated"} ELSE {})
                \cup (IF forced THEN {"gn_return_default_forced"} ELSE {})
                \cup (IF retOnly THEN {"gn_return_only_mangled"} ELSE {})
